@@ -48,6 +48,7 @@ func (idx *IndexWriter) AddRow(values map[string]string) (uint32, error) {
 	defer func() {
 		idx.nextRowID++
 	}()
+	verifPoint("writer.addrow", uint64(rowID))
 
 	for k, v := range values {
 		valueIdx := idx.schema.add(k, v)
@@ -163,6 +164,7 @@ func (idx *IndexWriter) WriteToBoltDatabase(db *bbolt.DB) error {
 			if err := tx.Commit(); err != nil {
 				return fmt.Errorf("failed to commit transaction: %w", err)
 			}
+			verifPoint("writer.commit", uint64(i))
 
 			tx, err = db.Begin(true)
 			if err != nil {
@@ -176,6 +178,7 @@ func (idx *IndexWriter) WriteToBoltDatabase(db *bbolt.DB) error {
 	if err := tx.Commit(); err != nil {
 		return fmt.Errorf("failed to commit transaction: %w", err)
 	}
+	verifPoint("writer.commit.final", uint64(i))
 
 	return nil
 }
